@@ -7,7 +7,10 @@ EXTENDS Spans, Json
 CONSTANTS Family,                  \* which family of bodies (see FamilyBodies)
           ExportMod, ExportSeed,   \* export the cases with (CaseHash + ExportSeed) % ExportMod = 0; 0 = none
           MaxSpans,                \* bound on spans per body for the batch families
-          BatchOwn, BatchName, BatchRemote   \* batch family: sets of booleans (own trace id? name present? remote endpoint?)
+          BatchOwn, BatchName, BatchRemote,  \* batch family: sets of booleans (own trace id? name present? remote endpoint?)
+          OrderPos,                \* orders family: the four mandatory keys "first" and/or "last"
+          RattrSel,                \* attrs family: which of the 4 resource attribute lists (subset of 1..4)
+          GroupKinds, GroupOwn     \* groups family: span kinds (subset of 0..2), own trace id? (set of booleans)
 
 G4 == <<"traceId", "id", "timestamp", "duration">>
 Perms(S) == {f \in [1..Cardinality(S) -> S] : \A a \in S : \E k \in 1..Cardinality(S) : f[k] = a}
@@ -39,7 +42,8 @@ ZBodiesIds(u_) ==
 Optional == {"parentId", "name", "localEndpoint", "remoteEndpoint", "tags"}
 ZOrderSpans(u_) ==
   UNION {UNION {{ZS(<<"a", "b">>, <<"c", "d">>, <<"e", "g">>, 10, 5, "@n1", loc, rem, <<T("@k1", "@v11"), T("@k2", "@v12")>>, ord, 0) :
-                   ord \in {G4 \o p : p \in Perms(ks)} \cup {p \o G4 : p \in Perms(ks)}} :
+                   ord \in (IF "first" \in OrderPos THEN {G4 \o p : p \in Perms(ks)} ELSE {})
+                                \cup (IF "last" \in OrderPos THEN {p \o G4 : p \in Perms(ks)} ELSE {})} :
                 loc \in (IF "localEndpoint" \in ks THEN {"@L1", NoName} ELSE {"-"}),
                 rem \in (IF "remoteEndpoint" \in ks THEN {"@R1", NoName} ELSE {"-"})} :
          ks \in SUBSET Optional}
@@ -98,9 +102,10 @@ rHost == KV("@h", Sc("str", "@s6"))
 rNum  == KV("@r", Sc("int", "@i4"))
 Catalog == {aS, aI, aD, aB, aL, aM, aN1, aN2, aE, aP}
 
+RattrLists == <<<<>>, <<rSvc, rHost, rNum>>, <<rSvc>>, <<rHost>>>>
 (* attrs: one span, every subset of the catalog of attribute kinds, with / without resource attributes *)
 OBodiesAttrs(u_) == {OBody(<<Grp(ra, <<<<OS(<<"a", "b">>, <<"c", "d">>, <<>>, 10, 15, "@n1", SetToSeq(as), 0)>>>>)>>) :
-                   as \in SUBSET Catalog, ra \in {<<>>, <<rSvc>>, <<rSvc, rHost, rNum>>, <<rHost>>}}
+                   as \in SUBSET Catalog, ra \in {RattrLists[k] : k \in RattrSel}}
 (* ids: every class of id, zero / positive duration *)
 OTids == {<<"0", "0">>, <<"a", "b">>, <<"f", "f">>, <<"0", "a">>, <<"a", "0">>}
 OSids == {<<"0", "0">>, <<"c", "d">>, <<"f", "f">>}
@@ -126,7 +131,7 @@ OGBodies(gs) ==
                            IN  Mk(gs[g][sc], sp)
            group(g) == LET scg(sc) == scope(g, sc) IN Grp(ra[g], Mk(Len(gs[g]), scg))
        IN  OBody(Mk(Len(gs), group)) :
-         kinds \in [1..n -> 0..2], own \in [1..n -> BOOLEAN],
+         kinds \in [1..n -> GroupKinds], own \in [1..n -> GroupOwn],
          ra \in {f \in [DOMAIN gs -> {<<>>, <<rSvc, rHost>>, <<rSvc2>>}] : f[1] # <<rSvc2>> /\ (Len(gs) = 2 => f[2] # <<rSvc, rHost>>)}}
 OBodiesGroups(u_) == UNION {OGBodies(gs) : gs \in BodyShapes(0)}
 (* big: a few spans with a very long attribute value; two of the largest cross the 1 MiB flush threshold *)
@@ -138,14 +143,40 @@ OBodiesBig(u_) == {OBody(<<Grp(<<rSvc>>, <<ss>>)>>) : ss \in {x \in OBigs(0) : \
 
 (* TLC evaluates every parameterless constant definition at start-up: the families take a dummy argument so that  *)
 (* only the selected one is ever built                                                                           *)
-FamilyBodies == CASE Family = "zids"    -> ZBodiesIds(0)
+FamilyBodies == TLCEval(CASE Family = "zids"    -> ZBodiesIds(0)
                   [] Family = "zorders" -> ZBodiesOrders(0)
                   [] Family = "zbatch"  -> ZBodiesBatch(0)
                   [] Family = "zbig"    -> ZBodiesBig(0)
                   [] Family = "oattrs"  -> OBodiesAttrs(0)
                   [] Family = "oids"    -> OBodiesIds(0)
                   [] Family = "ogroups" -> OBodiesGroups(0)
-                  [] Family = "obig"    -> OBodiesBig(0)
+                  [] Family = "obig"    -> OBodiesBig(0))
+
+(* ------------------------------------------ candidate classes ---------------------------------------------- *)
+(* The classes of bodies for which the transcribed mechanism breaks some clause of the statement.  TLC verifies     *)
+(* (InvOutsideClasses) that OUTSIDE these classes the mechanism satisfies every clause; INSIDE, the broken clauses   *)
+(* are exported with the case (flags) and the binding decides on the real code.                                    *)
+IdxOf(s, key) == IF Present(s, key) THEN CHOOSE k \in DOMAIN s.order : s.order[k] = key ELSE 0
+RECURSIVE HasList(_)
+HasList(v) == \/ v.t = "list" /\ v.e # <<>>
+              \/ \E k \in DOMAIN v.kv : HasList(v.kv[k].v)
+ZClasses(b) ==
+  (IF b.framing = "ndjson" THEN {"zipkin-ndjson"} ELSE {})
+  \cup (IF \E n \in DOMAIN b.spans : LET s == b.spans[n] IN
+             /\ Present(s, "localEndpoint") /\ Present(s, "remoteEndpoint") /\ s.local # NoName
+             /\ IdxOf(s, "localEndpoint") < IdxOf(s, "remoteEndpoint")
+         THEN {"zipkin-local-before-remote"} ELSE {})
+  \cup (IF \E n \in DOMAIN b.spans : Present(b.spans[n], "parentId") /\ Len(b.spans[n].parent) < W
+         THEN {"zipkin-short-parent"} ELSE {})
+OClasses(b) ==
+  (IF \E n \in DOMAIN OSpans(b) : LET e == OSpans(b)[n] IN \E k \in DOMAIN (e.span.attrs \o e.rattrs) : HasList((e.span.attrs \o e.rattrs)[k].v)
+   THEN {"otlp-list-attribute"} ELSE {})
+  \cup (IF \E n \in DOMAIN OSpans(b) : LET e == OSpans(b)[n] IN
+             GetAttr(e.span.attrs, "peer.service").found /\ GetAttr(e.rattrs, "service.name").found
+         THEN {"otlp-peer.service-and-service.name"} ELSE {})
+Classes(b) == IF b.proto = "zipkin" THEN ZClasses(b) ELSE OClasses(b)
+InvOutsideClasses == (pc = "done" /\ Classes(body) = {}) => Flags = {}
+InvCleanDecoderArray == (body.proto = "zipkin" /\ ~IsZ("ndjson")) => InvCleanDecoder
 
 (* ----------------------------------------------- export --------------------------------------------------- *)
 DefOut(n) == LET d == Def(n) IN [tid |-> d.tid, sid |-> d.sid, parent |-> d.parent, name |-> d.name, ts |-> d.ts, dur |-> d.dur,
@@ -159,7 +190,7 @@ CaseRec == [body |-> body, n |-> NSpans(body),
             mech |-> [rows |-> [k \in DOMAIN TraceRows |-> RowOut(TraceRows[k])], tags |-> TagRows,
                       read |-> SetToSeq({[tid |-> t, spans |-> ReadTrace(t)] : t \in Tids}),
                       responses |-> Len(sent)],
-            flags |-> Flags]
+            flags |-> Flags, classes |-> Classes(body)]
 SeqHash(s) == SumSeq([k \in DOMAIN s |-> (k * 7 + 3) * (Len(s[k]) + 1)])
 CaseHash == IF body.proto = "zipkin"
             THEN SumSeq([n \in DOMAIN body.spans |-> (n * 31 + 5) * (SeqHash(body.spans[n].order) + Len(body.spans[n].tid) * 3
